@@ -47,7 +47,7 @@ func HarnessC05() {
 
 	// principals: 1..maxP, each with 1 or 2 keys; the second key of a
 	// principal may be a key of an earlier principal (sharing)
-	maxP := verif.Bound("principals", 3, 4)
+	maxP := verif.Bound("principals", 3, 3)
 	np := verif.Concrete(verif.IntRange("nprincipals", 0, maxP))
 	var prs []zz5Principal
 	next := 0
@@ -115,7 +115,7 @@ func HarnessC05() {
 	var slots []slot
 	if verif.Bool("withenvelope") {
 		env = &sslibdsse.Envelope{PayloadType: payloadType, Payload: base64.StdEncoding.EncodeToString(payload), Signatures: []sslibdsse.Signature{}}
-		ns := verif.Concrete(verif.IntRange("nslots", 0, verif.Bound("slots", 3, 3)))
+		ns := verif.Concrete(verif.IntRange("nslots", 0, verif.Bound("slots", 3, 4)))
 		for s := 0; s < ns; s++ {
 			sl := slot{key: verif.Choice("s"+strconv.Itoa(s)+".key", len(zz5KeyIDs)), valid: verif.Bool("s" + strconv.Itoa(s) + ".valid")}
 			slots = append(slots, sl)
